@@ -191,15 +191,11 @@ def gen_foreign(rng):
         tag = 'main_encoding_omitted'
     else:
         doc = recipe.gen_doc(rng, max_changes=3, max_files=3, enc_p=0.3)
-    if rng.random() < 0.04:
-        # a JSON number beyond the range of a double
-        for kind, sec, inh in recipe.iter_content(doc):
-            if kind == 'meta' and rng.random() < 0.5:
-                sec['obj'] = dict(sec['obj'],
-                                  huge=rng.choice([float('inf'),
-                                                   float('-inf')]))
-                tag = tag + '+number_beyond_double'
-                break
+    # (metadata numbers beyond the range of a double, e.g. 1e999, are NOT
+    # generated: they parse to float('inf'), and a writer that refuses to
+    # emit the non-JSON token "Infinity" - preserving change P8-a - is
+    # within its rights; whether such a file "is accepted and must
+    # re-serialise" is not decided by the property)
     unpadded = rng.random() < 0.1
     if unpadded:
         recipe.blank_lines_style(doc, rng)
